@@ -26,6 +26,7 @@ PROFILES = {
          dict(probe_level=0, illegal=0.0, fold=0.05, allin=0.15, manual_show=1.0, muck=0.85, allow_orphan=True)),
         ('split-pots-boards', 110, 1600, dict(variants=HILO + ['PO', 'NT', 'FO/8'], stacks='mixed', boards=(1, 2, 2), mode='C'),
          dict(probe_level=0, illegal=0.0, fold=0.02, allin=0.15, runout=0.8)),
+        ('single-forced-bet-folded-to', 50, 500, dict(single_forced=True, rake_p=0.0), dict(probe_level=0, illegal=0.0, fold=0.7, raise_=0.1)),
     ],
     'C02': [
         ('showdowns-multiway', 160, 2200, dict(stacks='short', variants=FLOP + STUD, ante_p=0.7),
@@ -63,6 +64,10 @@ PROFILES = {
         ('custom-street-lists', 150, 1500, dict(custom=True), dict(probe_level=0, illegal=0.05)),
         ('deck-exactly-exhausted', 60, 600, dict(variants=['F2L3D', 'F2L3D', 'FB'], stacks='deep', max_n=6),
          dict(probe_level=0, illegal=0.0, fold=0.0, raise_=0.05, exhaust=True)),
+        ('single-forced-bet-folded-to', 60, 600, dict(single_forced=True, rake_p=0.0), dict(probe_level=0, illegal=0.05, fold=0.7, raise_=0.1)),
+        ('cash-all-in-manual-showdown', 90, 900, dict(variants=['NT', 'PO', 'NS', 'FO/8'], stacks='short', mode='C', boards=(1, 1, 2),
+                                                      no_autos=('Runout-count selection', 'Hole cards showing or mucking')),
+         dict(probe_level=0, illegal=0.05, allin=0.35, fold=0.03, runout=0.6, muck=0.8, manual_show=0.9, muck_allin=True)),
     ],
     'C08': [
         ('all-variants-full-universe', 200, 2000, dict(), dict(probe_level=2, illegal=0.45)),
